@@ -20,8 +20,10 @@ import (
 
 	"github.com/tink-crypto/tink-go/v2/insecuresecretdataaccess"
 	"github.com/tink-crypto/tink-go/v2/internal/internalapi"
+	imldsa "github.com/tink-crypto/tink-go/v2/internal/signature/mldsa"
 	"github.com/tink-crypto/tink-go/v2/jwt/jwtecdsa"
 	"github.com/tink-crypto/tink-go/v2/jwt/jwthmac"
+	"github.com/tink-crypto/tink-go/v2/jwt/jwtmldsa"
 	"github.com/tink-crypto/tink-go/v2/jwt/jwtrsassapkcs1"
 	"github.com/tink-crypto/tink-go/v2/jwt/jwtrsassapss"
 	"github.com/tink-crypto/tink-go/v2/key"
@@ -34,9 +36,10 @@ import (
 //
 //	status   E | D
 //	primary  0 | 1
-//	alg      HS256 HS384 HS512 ES256 ES384 ES512 RS256 RS384 RS512 PS256 PS384 PS512
+//	alg      HS256 HS384 HS512 ES256 ES384 ES512 RS256 RS384 RS512 PS256 PS384 PS512 ML-DSA-44 ML-DSA-65 ML-DSA-87
 //	kid      T (Base64EncodedKeyIDAsKID, TINK) | I (IgnoredKID, RAW) | C<hex> (CustomKID, RAW)
-//	material HS: key bytes (hex); ES: private scalar (hex); RS/PS: r0 r1 r2 (embedded RSA-2048 keys)
+//	material HS: key bytes (hex); ES: private scalar (hex); RS/PS: r0 r1 r2 (embedded RSA-2048 keys);
+//	         ML-DSA: 32-byte key generation seed (hex)
 type kd struct {
 	ID        uint32
 	Enabled   bool
@@ -118,6 +121,31 @@ func curveOf(alg string) (elliptic.Curve, ecdh.Curve, int) {
 	default:
 		return elliptic.P521(), ecdh.P521(), 66
 	}
+}
+
+// mlKeys derives the ML-DSA key pair of a descriptor from its seed.
+func mlKeys(d kd) (*imldsa.PublicKey, *imldsa.SecretKey) {
+	ck := d.Alg + d.Mat
+	cacheMu.Lock()
+	defer cacheMu.Unlock()
+	if k, ok := stdCache[ck]; ok {
+		p := k.([2]any)
+		return p[0].(*imldsa.PublicKey), p[1].(*imldsa.SecretKey)
+	}
+	var seed [imldsa.SecretKeySeedSize]byte
+	copy(seed[:], hx.UH(d.Mat))
+	var pk *imldsa.PublicKey
+	var sk *imldsa.SecretKey
+	switch d.Alg {
+	case "ML-DSA-44":
+		pk, sk = imldsa.MLDSA44.KeyGenFromSeed(seed)
+	case "ML-DSA-65":
+		pk, sk = imldsa.MLDSA65.KeyGenFromSeed(seed)
+	default:
+		pk, sk = imldsa.MLDSA87.KeyGenFromSeed(seed)
+	}
+	stdCache[ck] = [2]any{pk, sk}
+	return pk, sk
 }
 
 type rsaMat struct{ n, d, p, q []byte }
@@ -225,6 +253,22 @@ func tinkKey(d kd, private bool) (key.Key, error) {
 		if private {
 			k, err = jwtrsassapss.NewPrivateKey(jwtrsassapss.PrivateKeyOpts{PublicKey: pub, D: sd(m.d), P: sd(m.p), Q: sd(m.q)})
 		}
+	case "ML":
+		strat := map[byte]jwtmldsa.KIDStrategy{'T': jwtmldsa.Base64EncodedKeyIDAsKID, 'I': jwtmldsa.IgnoredKID, 'C': jwtmldsa.CustomKID}[d.Kid]
+		alg := map[string]jwtmldsa.Algorithm{"ML-DSA-44": jwtmldsa.MLDSA44, "ML-DSA-65": jwtmldsa.MLDSA65, "ML-DSA-87": jwtmldsa.MLDSA87}[d.Alg]
+		var p *jwtmldsa.Parameters
+		if p, err = jwtmldsa.NewParameters(strat, alg); err != nil {
+			return nil, err
+		}
+		pk, _ := mlKeys(d)
+		var pub *jwtmldsa.PublicKey
+		if pub, err = jwtmldsa.NewPublicKey(jwtmldsa.PublicKeyOpts{KeyBytes: pk.Encode(), IDRequirement: idReq, CustomKID: d.CustomKid, HasCustomKID: d.Kid == 'C', Parameters: p}); err != nil {
+			return nil, err
+		}
+		k = pub
+		if private {
+			k, err = jwtmldsa.NewPrivateKeyFromPublicKey(sd(hx.UH(d.Mat)), pub)
+		}
 	default:
 		return nil, fmt.Errorf("unknown alg %s", d.Alg)
 	}
@@ -298,6 +342,12 @@ func stdEC(d kd) *ecdsa.PrivateKey {
 // fixed-width r||s, RSASSA-PKCS1-v1_5, RSASSA-PSS with salt length = hash
 // length).
 func sigValid(d kd, sig, msg []byte) bool {
+	if d.Alg[:2] == "ML" {
+		// no ML-DSA in the standard library: the repository's own FIPS 204
+		// implementation (property C10) with an empty context
+		pk, _ := mlKeys(d)
+		return pk.Verify(msg, sig, nil) == nil
+	}
 	ch, newH := hashOf(d.Alg)
 	h := newH()
 	switch d.Alg[:2] {
@@ -326,6 +376,14 @@ func sigValid(d kd, sig, msg []byte) bool {
 // tokens).  ECDSA is RFC 6979 deterministic (nil random source); PSS takes
 // its salt from rnd.
 func rawSign(d kd, msg []byte, rnd *hx.Rng) []byte {
+	if d.Alg[:2] == "ML" {
+		_, sk := mlKeys(d)
+		s, err := sk.SignDeterministic(msg, nil)
+		if err != nil {
+			panic(err)
+		}
+		return s
+	}
 	ch, newH := hashOf(d.Alg)
 	h := newH()
 	h.Write(msg)
